@@ -2,6 +2,7 @@
 
 Behaviour = basename of the executable that exec'd this file (see the stubs next to it):
   ok reorder garbage_empty garbage_ragged garbage_missing garbage_length garbage_tree exit3 hang
+  hang_ignore_term (never exits and ignores SIGTERM)
   sigkill (writes complete, valid output, then dies by SIGKILL: negative return code)
 Environment (inherited through Popen):
   C20_GATE     path; the tool blocks until this file exists (so the harness decides when it "finishes")
@@ -40,9 +41,14 @@ def main():
             with open(log, "a") as f:
                 f.write(json.dumps(dict(kw, pid=os.getpid(), cwd=os.getcwd())) + "\n")
 
+    if behaviour == "hang_ignore_term":
+        import signal
+        signal.signal(signal.SIGTERM, signal.SIG_IGN)     # only SIGKILL ends this one
     emit(event="started", behaviour=behaviour, args=args)
-    if behaviour == "hang":
-        time.sleep(600)
+    if behaviour in ("hang", "hang_ignore_term"):
+        end = time.time() + 600
+        while time.time() < end:
+            time.sleep(1)
         return 0
     gate = os.environ.get("C20_GATE")
     if gate:
